@@ -200,6 +200,7 @@ def q_record_id_total(bodies):
                 problems.append(("an identifier accepted by the decoder is long enough for everything its accessors slice (namespace 0..32, author 32..64, key 64..): no hostile entry or range bound can make them panic",
                                  v, "%s needs bytes [%s, %s)" % (a, lo, hi or "len")))
                 break
+    problems.sort(key=lambda p: p[1] == "inconclusive")  # a confirmed problem names the check
     return dict(name=name, property="C09", properties=props, verdict=_verdict([p for p in problems]),
                 detail="decoder Ok paths=%d; accessors=%d; problems: %s" % (len(ok_facts), len(acc), problems[:3] or "none"),
                 functions=sorted(funcs) + ["serde Deserializer / SeqAccess, bytes::Bytes (modelled: an accepted byte string of symbolic length)"],
